@@ -26,3 +26,8 @@ def writer_loops(k, sink_size):
     fcm = "_RNvNvXs_NtNtNt{libpatch}5patch7unified6writerINtBa_4HunkRShENtB6_22UnifiedPatchHunkWriter8write_to18find_closest_match"
     wt = "_RINvXs_NtNtNt{libpatch}5patch7unified6writerINtB9_4HunkRShENtB5_22UnifiedPatchHunkWriter8write_toINtNtNtB7_6parser7verif_h4SinkKj%x_EEBb_" % sink_size
     return {fcm + ".0": 2 * k + 2, fcm + ".1": k + 2, wt + ".0": 2 * k + 2, wt + ".1": k + 2, wt + ".2": k + 2}
+
+
+def rej_loops(h, sink_size):
+    """write_rej_to's loop over the hunks, instantiated with Sink<sink_size> (see writer_loops)."""
+    return {"_RINvXs1_NtNtNt{libpatch}5patch7unified6writerINtBa_9FilePatchRShENtB6_21UnifiedPatchRejWriter12write_rej_toINtNtNtB8_6parser7verif_h4SinkKj%x_EEBc_.0" % sink_size: h + 2}
